@@ -224,7 +224,132 @@ class ExactB(ExactA):
         return model.get_fantasy_model(self.Xf, self.yf, noise=torch.tensor([0.2, 0.3]))
 
 
-FAMILIES = {"exactA": ExactA, "exactB": ExactB}
+class Kiss(ExactA):
+    """KISS-GP: GridInterpolationKernel, InterpolatedPredictionStrategy (WISKI fantasies)"""
+    name, coq, cmp_backward_status = "kiss", 1, False
+    cfg_names = ["default", "fast_pred_var", "fast_pred_var+fast_pred_samples", "skip_posterior_variances"]
+
+    def setup(self):
+        super().setup()
+        r = self.rng
+        self.data = [(torch.tensor(_pts(r, 6)), torch.tensor([round(r.uniform(-2, 2) * 8) / 8 for _ in range(6)]))
+                     for _ in range(3)]
+        self.Xf = torch.tensor(_pts(r, 2, lo=-1.5, hi=1.5))
+
+    def construct(self, data):
+        X, y = data
+        lik = gpytorch.likelihoods.GaussianLikelihood()
+        kern = gpytorch.kernels.ScaleKernel(gpytorch.kernels.GridInterpolationKernel(
+            gpytorch.kernels.RBFKernel(), grid_size=10, num_dims=1, grid_bounds=[(-3.0, 3.0)]))
+        return _ExactModel(X.clone(), y.clone(), lik, gpytorch.means.ConstantMean(), kern)
+
+    def perturb(self, m, k):
+        m.likelihood.noise = [0.2, 0.35, 0.12][k]
+        m.covar_module.outputscale = [1.0, 1.8, 0.6][k]
+        m.covar_module.base_kernel.base_kernel.lengthscale = [0.9, 1.4, 0.7][k]
+        m.mean_module.constant.data.fill_([0.0, 0.6, -0.4][k])
+
+    def cfg(self, c):
+        return [_multi(), _multi(gs.fast_pred_var(True)),
+                _multi(gs.fast_pred_var(True), gs.fast_pred_samples(True)),
+                _multi(gs.skip_posterior_variances(True))][c]
+
+
+class Sgpr(ExactA):
+    """SGPR: InducingPointKernel, SGPRPredictionStrategy"""
+    name, coq, cmp_backward_status = "sgpr", 2, False
+    cfg_names = ["default", "fast_pred_var", "nan_policy_mask", "sgpr_diagonal_correction_off"]
+
+    def setup(self):
+        super().setup()
+        r = self.rng
+        self.data = [(torch.tensor(_pts(r, 7)), torch.tensor([round(r.uniform(-2, 2) * 8) / 8 for _ in range(7)]))
+                     for _ in range(3)]
+        self.Z = torch.tensor(_pts(r, 4, sep=0.5))
+
+    def construct(self, data):
+        X, y = data
+        lik = gpytorch.likelihoods.GaussianLikelihood()
+        kern = gpytorch.kernels.InducingPointKernel(gpytorch.kernels.ScaleKernel(gpytorch.kernels.RBFKernel()),
+                                                    self.Z.clone(), lik)
+        return _ExactModel(X.clone(), y.clone(), lik, gpytorch.means.ConstantMean(), kern)
+
+    def perturb(self, m, k):
+        m.likelihood.noise = [0.2, 0.35, 0.12][k]
+        m.covar_module.base_kernel.outputscale = [1.0, 1.8, 0.6][k]
+        m.covar_module.base_kernel.base_kernel.lengthscale = [0.9, 1.4, 0.7][k]
+        m.mean_module.constant.data.fill_([0.0, 0.6, -0.4][k])
+        m.covar_module.inducing_points.data.add_(0.1 * k)
+
+    def cfg(self, c):
+        return [_multi(), _multi(gs.fast_pred_var(True)), _multi(gs.observation_nan_policy("mask")),
+                _multi(gs.sgpr_diagonal_correction(False))][c]
+
+
+class VarWC(Family):
+    """variational GP; whitened strategy, Cholesky distribution (fantasy models exist)"""
+    name, coq, has_data = "variational:whitened-cholesky", 3, False
+    strat, dist = "whitened", "cholesky"
+    lr = 0.01
+    cfg_names = ["default", "skip_posterior_variances", "eager_kernels", "variational_cholesky_jitter_1e-3"]
+
+    def setup(self):
+        r = self.rng
+        self.Z = torch.tensor(_pts(r, 4, sep=0.5))
+        self.Xtr = torch.tensor(_pts(r, 8))
+        self.ytr = torch.tensor([round(r.uniform(-2, 2) * 8) / 8 for _ in range(8)])
+        self.Xs = torch.tensor(_pts(r, 3))
+        self.Xf = torch.tensor(_pts(r, 2, lo=2.2, hi=3.0))
+        self.yf = torch.tensor([0.5, -0.25])
+
+    def construct(self, data):
+        return _SVGP(self.Z.clone(), self.strat, self.dist)
+
+    def perturb(self, m, k):
+        m.eval()
+        torch.manual_seed(1000 + k)
+        with torch.no_grad():
+            m(self.Xs)      # initialises the variational parameters (variational_params_initialized := 1)
+        m.likelihood.noise = [0.2, 0.35, 0.12][k]
+        m.covar_module.outputscale = [1.0, 1.8, 0.6][k]
+        m.covar_module.base_kernel.lengthscale = [0.9, 1.4, 0.7][k]
+        m.mean_module.constant.data.fill_([0.0, 0.6, -0.4][k])
+        for _, p in m.variational_strategy._variational_distribution.named_parameters():
+            pert = 0.05 * (k + 1) * torch.sin(torch.arange(p.numel(), dtype=p.dtype).reshape(p.shape) + k)
+            if p.dim() == 2:
+                pert = (pert + pert.t()) / 2
+            p.data.add_(pert)
+
+    def cfg(self, c):
+        return [_multi(), _multi(gs.skip_posterior_variances(True)), _multi(gs.lazily_evaluate_kernels(False)),
+                _multi(gs.variational_cholesky_jitter(float_value=1e-3, double_value=1e-3))][c]
+
+    def loss(self, model):
+        mll = gpytorch.mlls.VariationalELBO(model.likelihood, model, num_data=self.Xtr.size(0))
+        return -mll(model(self.Xtr), self.ytr)
+
+    def prior_call(self, model):
+        return model(self.Xs, prior=True)
+
+    def fantasy(self, model):
+        return model.get_fantasy_model(self.Xf, self.yf)
+
+
+class VarUC(VarWC):
+    name, strat = "variational:unwhitened-cholesky", "unwhitened"
+
+
+class VarWN(VarWC):
+    name, coq, dist = "variational:whitened-natural", 4, "natural"
+
+
+class VarWM(VarWC):
+    name, coq, dist = "variational:whitened-meanfield", 4, "meanfield"
+
+
+FAMILIES = {"exactA": ExactA, "exactB": ExactB, "kiss": Kiss, "sgpr": Sgpr, "varWC": VarWC, "varUC": VarUC,
+            "varWN": VarWN, "varWM": VarWM}
+
 
 
 # =========================================================================== running a history
@@ -256,8 +381,10 @@ def do_predict(fam, model, c, kind="post"):
         if model.training and fam.has_data:
             return dist_out(fam.train_output(model))
         if kind == "prior":
+            if hasattr(fam, "prior_call"):
+                return dist_out(fam.prior_call(model))
             with gs.prior_mode(True):
-                return dist_out(fam.prior_call(model) if hasattr(fam, "prior_call") else model(fam.Xs))
+                return dist_out(model(fam.Xs))
         return dist_out(model(fam.Xs))
 
 
@@ -517,6 +644,11 @@ def plan(tier, seed):
     nrand = 40 if tier == "quick" else 300
     for f in ("exactA", "exactB"):
         P.append((f, [random_history(rng, full, rng.randint(5, 25)) for _ in range(nrand)], None))
+    k2 = 2 if tier == "quick" else 3
+    for f in ("kiss", "sgpr", "varWC", "varUC", "varWN", "varWM"):
+        alphabet = full if FAMILIES[f].has_data else [o for o in full if o != O_SETDATA]
+        P.append((f, exhaustive(alphabet, k2), k2))
+        P.append((f, [random_history(rng, alphabet, rng.randint(5, 25)) for _ in range(nrand)], None))
     return P
 
 
